@@ -40,7 +40,9 @@ class Monitor:
         for sid, s in T.sims.items():
             d = T.depth(sid)
             if s.get("init_event") is not None:
-                self.D[sid][(s["init_event"],) + zero(d - 1)] = {"init"}
+                ie = s["init_event"]
+                ie = ie[-1] if isinstance(ie, list) else ie     # the last call counts
+                self.D[sid][(ie,) + zero(d - 1)] = {"init"}
             elif s["type"] != "event-based":
                 self.D[sid][zero(d)] = {"init"}
         self.cur = {}        # sid -> (k, tt) step in flight
